@@ -18,8 +18,12 @@ PY = "/venv/bin/python"
 def main():
     sd = Path(sys.argv[1]).resolve()
     meta = json.loads((sd / "meta.json").read_text())
-    tests = [t.split("::")[0] for t in meta.get("tests_run", []) if t.startswith("tests/")] + sys.argv[2:]
+    # entries are test paths, node ids, or whole command lines that contain them
+    tests = [m.split("::")[0] for t in meta.get("tests_run", []) for m in re.findall(r"tests/[\w/]+\.py(?:::\S+)?", t)] + sys.argv[2:]
     tests = sorted(set(tests))
+    if not tests:
+        print("seedconfirm: no test files named in meta.json['tests_run'] — give them on the command line")
+        return 2
     base = json.loads(Path("/root/.vp/BASELINE.json").read_text())
     always = set(base.get("always_fail", []))
     tmp = Path(tempfile.mkdtemp(prefix="seedconfirm_", dir="/tmp"))
